@@ -82,4 +82,201 @@ Proof.
     + destruct (bd_tx_msg_set t (Z.add 1)) as (Q1 & Q2 & Q3). fold t1 in Q1, Q2, Q3.
       exists t'. bd_splits; try congruence. rewrite T4, Q1. lia.
 Qed.
+
+Lemma bd_inv_from_facts i c c' t' :
+  bd_rq_inv i c -> c_in_tx c' = Some i -> c_in_status c' = c_in_status c ->
+  k_data (c_in c') = k_data (c_in c) -> k_len (c_in c') = k_len (c_in c) ->
+  (forall d, k_data (c_in c) = Some d -> (k_read (c_in c') <= length d)%nat) ->
+  k_header (c_in c') = k_header (c_in c) -> k_receiver_hook (c_in c') = k_receiver_hook (c_in c) ->
+  tx_slot c' i = Some t' -> t_hook_request_body t' = 0%nat -> bd_rq_inv i c'.
+Proof.
+  intros [A B C D E (d & F1 & F2 & F3)] H1 H2 H3 H4 H5 H6 H7 H8 H9. constructor; try congruence.
+  - exists t'. auto.
+  - exists d. bd_splits; try congruence. apply H5. exact F1.
+Qed.
+Lemma bd_rest_len c d : k_data (c_in c) = Some d -> (k_read (c_in c) <= length d)%nat ->
+  length (bd_rq_rest c) = (length d - k_read (c_in c))%nat.
+Proof. intros H _. unfold bd_rq_rest. rewrite H. apply skipn_length. Qed.
+Lemma bd_rest_moved c c' k pre tl : k_data (c_in c') = k_data (c_in c) -> k_read (c_in c') = (k_read (c_in c) + k)%nat ->
+  bd_rq_rest c = pre ++ tl -> length pre = k -> bd_rq_rest c' = tl.
+Proof.
+  intros H1 H2 H3 H4. unfold bd_rq_rest in *. rewrite H1, H2. destruct (k_data (c_in c)) as [d|].
+  - rewrite <- bd_skipn_skipn, H3, skipn_app, <- H4, Nat.sub_diag, skipn_all. reflexivity.
+  - destruct pre; [cbn in H3; subst; reflexivity|discriminate].
+Qed.
+
+(* ================= end of chunk data: REQ_BODY_CHUNKED_DATA_END fed any chunking of  e ++ LF :: rest ================= *)
+Lemma bd_rq_data_end_seg i : forall rem c e rest,
+  bd_rq_inv i c -> bd_rq_clean c -> c_in_state c = REQ_BODY_CHUNKED_DATA_END ->
+  bd_rq_rest c ++ concat rem = e ++ LF :: rest -> bd_no_lf e = true ->
+  Forall (fun d => d <> []) rem ->
+  exists c' rem',
+    bd_rq_seg cb g i c rem c' rem' [] (Z.of_nat (length e + 1)) /\
+    c_in_state c' = REQ_BODY_CHUNKED_LENGTH /\ bd_rq_rest c' ++ concat rem' = rest /\
+    c_in_body_data_left c' = c_in_body_data_left c /\ c_in_chunked_length c' = c_in_chunked_length c.
+Proof.
+  induction rem as [|d' rem IH]; intros c e rest Inv Cl Hs Hw Hnl Hrem.
+  all: destruct (bq_live _ _ Inv) as (t & Hl & Hh).
+  all: destruct (bq_data _ _ Inv) as (d & Hd & Hlen & Hrd).
+  all: assert (Hfn : rq_state_fn cb g (c_in_state c) c = REQ_BODY_CHUNKED_DATA_END_fn c) by (rewrite Hs; reflexivity).
+  all: assert (Hn : (length (bd_rq_rest c) <= k_len (c_in c) - k_read (c_in c))%nat) by (rewrite (bd_rest_len c d Hd Hrd), Hlen; lia).
+  all: assert (Hfinish : forall tl rem1, bd_rq_rest c = e ++ LF :: tl -> Forall (fun d => d <> []) rem1 -> tl ++ concat rem1 = rest ->
+         exists c' rem', bd_rq_seg cb g i c rem1 c' rem' [] (Z.of_nat (length e + 1)) /\
+           c_in_state c' = REQ_BODY_CHUNKED_LENGTH /\ bd_rq_rest c' ++ concat rem' = rest /\
+           c_in_body_data_left c' = c_in_body_data_left c /\ c_in_chunked_length c' = c_in_chunked_length c).
+  1,3: intros tl rem1 Hr Hrem1 Hw1;
+    destruct (bd_rq_data_end_loop i e c _ (LF :: tl) t Inv Hl Hr Hnl Hn eq_refl)
+      as (c' & Hloop & A1 & A2 & A3 & A4 & A5 & A6 & A7 & A8 & A9 & A10 & A11 & A12 & A13 & t' & T1 & T2 & T3 & T4);
+    assert (Inv' : bd_rq_inv i c') by
+      (apply (bd_inv_from_facts i c c' t' Inv A1 A2 A7 A8); auto; [|congruence];
+       intros d0 Hd0; rewrite Hd in Hd0; inversion Hd0; subst d0; rewrite A9;
+       pose proof (bd_rest_len c d Hd Hrd) as HL; rewrite Hr, app_length in HL; cbn [length] in HL; lia);
+    destruct (bd_hsc_misc c') as (M1 & M2 & M3);
+    exists (bd_hsc c'), rem1; bd_splits;
+    [ constructor;
+      [ eapply bd_rr_iter; [|apply bd_rr_refl]; apply bd_rq_iter_ok; [rewrite Hfn; exact Hloop|rewrite A2; apply (bq_status _ _ Inv)|rewrite A6; reflexivity]
+      | eapply bd_eqv_inv; [apply bd_eqv_hsc|exact Inv']
+      | eapply bd_eqv_clean; [apply bd_eqv_hsc|]; destruct Cl as (Cl1 & Cl2); split; [rewrite A9, A10; lia|rewrite A11; exact Cl2]
+      | exact Hrem1
+      | exists []; rewrite (bd_eqv_events _ _ (bd_eqv_hsc c')), A3; bd_splits; reflexivity
+      | intros t0 Ht0; rewrite Hl in Ht0; inversion Ht0; subst t0; exists t'; rewrite (bd_eqv_slot _ _ i (bd_eqv_hsc c'));
+        bd_splits; [exact T1|rewrite T3; cbn; lia|rewrite T4; reflexivity] ]
+    | rewrite M1; exact A6
+    | rewrite (bd_eqv_rest _ _ (bd_eqv_hsc c')), (bd_rest_moved c c' _ (e ++ [LF]) tl A7 A9); [exact Hw1| |rewrite app_length; reflexivity];
+      rewrite Hr, <- app_assoc; reflexivity
+    | rewrite M2; exact A4
+    | rewrite M3; exact A5 ].
+  - cbn [concat] in Hw. rewrite app_nil_r in Hw. apply (Hfinish rest []); auto. apply app_nil_r.
+  - destruct (Nat.lt_ge_cases (length e) (length (bd_rq_rest c))) as [Hlt|Hge].
+    + assert (exists tl, bd_rq_rest c = e ++ LF :: tl /\ tl ++ concat (d' :: rem) = rest) as (tl & E1 & E2).
+      { destruct (bd_app_prefix e (bd_rq_rest c) (LF :: rest) (concat (d' :: rem))) as (x & X1 & X2); [symmetry; exact Hw|lia|].
+        destruct x as [|x0 x]; [rewrite app_nil_r in X1; rewrite X1 in Hlt; lia|].
+        cbn in X2. inversion X2; subst x0. exists x. split; [exact X1|reflexivity]. }
+      apply (Hfinish tl (d' :: rem)); auto.
+    + destruct (bd_app_prefix (bd_rq_rest c) e (concat (d' :: rem)) (LF :: rest) Hw Hge) as (e' & Hb & Hw').
+      pose proof (Forall_inv Hrem) as Hd'. pose proof (Forall_inv_tail Hrem) as Hrem'. cbn beta in Hd'.
+      assert (Hnl2 : bd_no_lf (bd_rq_rest c) = true /\ bd_no_lf e' = true).
+      { rewrite Hb, bd_no_lf_app in Hnl. apply andb_true_iff in Hnl. exact Hnl. }
+      destruct Hnl2 as (Hnl1 & Hnl2).
+      assert (Hr0 : bd_rq_rest c = bd_rq_rest c ++ []) by (symmetry; apply app_nil_r).
+      destruct (bd_rq_data_end_loop i (bd_rq_rest c) c _ [] t Inv Hl Hr0 Hnl1 Hn I)
+        as (c1 & Hloop & A1 & A2 & A3 & A4 & A5 & A6 & A7 & A8 & A9 & A10 & A11 & A12 & A13 & t' & T1 & T2 & T3 & T4).
+      rewrite Nat.add_0_r in *.
+      assert (Inv1 : bd_rq_inv i c1).
+      { apply (bd_inv_from_facts i c c1 t' Inv A1 A2 A7 A8); auto; [|congruence].
+        intros d0 Hd0. rewrite Hd in Hd0. inversion Hd0; subst d0. rewrite A9. rewrite (bd_rest_len c d Hd Hrd). lia. }
+      set (c3 := bd_req_begin d' (c1 <| c_in_status := c_HTP_STREAM_DATA |>)).
+      destruct (bd_begin_misc d' (c1 <| c_in_status := c_HTP_STREAM_DATA |>)) as (Ev & St & L1 & L2 & Bf & Sl).
+      destruct (IH c3 e' rest) as (c' & rem' & Seg & S' & W' & F' & O'); auto.
+      { apply bd_inv_begin. apply bd_inv_status. exact Inv1. }
+      { apply bd_begin_clean. cbn [c_in set]. rewrite A11. apply Cl. }
+      { unfold c3. rewrite St. cbn. rewrite A6. exact Hs. }
+      { unfold c3. rewrite bd_begin_rest. exact Hw'. }
+      exists c', rem'. bd_splits; auto.
+      * destruct Seg as [A B C D (evs & E1 & E2 & E3) H]. constructor; auto.
+        { eapply bd_rr_next; [|exact A]. apply bd_rq_iter_data; [rewrite Hfn; exact Hloop|rewrite A13; apply (bq_rcv _ _ Inv)]. }
+        { exists evs. split; [rewrite E1; unfold c3; rewrite Ev; cbn; rewrite A3; reflexivity|split; assumption]. }
+        { intros t0 Ht0. rewrite Hl in Ht0. inversion Ht0; subst t0.
+          assert (Hs3 : tx_slot c3 i = Some t') by (unfold c3; rewrite Sl; rewrite <- T1; apply bd_slot_ext; reflexivity).
+          destruct (H _ Hs3) as (t'' & U1 & U2 & U3). exists t''. bd_splits; [exact U1|rewrite U2, T3; reflexivity|].
+          rewrite U3, T4. assert (HL : length e = (length (bd_rq_rest c) + length e')%nat) by (rewrite Hb at 1; apply app_length).
+          rewrite HL. lia. }
+      * rewrite F'. unfold c3. rewrite L1. cbn. exact A4.
+      * rewrite O'. unfold c3. rewrite L2. cbn. exact A5.
+Qed.
+
+(* ================= a chunk-size line with a positive value ================= *)
+Lemma bd_rq_line_seg i rem c lrest rest :
+  bd_rq_inv i c -> bd_rq_clean c -> c_in_state c = REQ_BODY_CHUNKED_LENGTH ->
+  bd_rq_rest c ++ concat rem = lrest ++ LF :: rest -> bd_no_lf lrest = true ->
+  (length lrest + 1 <= g_field_limit_hard g)%nat -> Forall (fun d => d <> []) rem ->
+  0 < bd_rq_line_value (lrest ++ [LF]) ->
+  exists c' rem',
+    bd_rq_seg cb g i c rem c' rem' [] (Z.of_nat (length lrest + 1)) /\
+    c_in_state c' = REQ_BODY_CHUNKED_DATA /\ c_in_chunked_length c' = bd_rq_line_value (lrest ++ [LF]) /\
+    bd_rq_rest c' ++ concat rem' = rest /\ c_in_body_data_left c' = c_in_body_data_left c.
+Proof.
+  intros Inv (Cl1 & Cl2) Hs Hw Hnl Hhard Hrem Hv.
+  destruct (bq_live _ _ Inv) as (t & Hl & Hh).
+  assert (Hhard' : (length (bd_olist (k_buf (c_in c))) + length lrest + 1 <= g_field_limit_hard g)%nat) by (rewrite Cl2; cbn; lia).
+  destruct (bd_rq_line_assembly cb g i rem c lrest rest t Inv Hs Cl1 Hw Hnl Hhard' Hrem Hl)
+    as (c2 & rem2 & c' & R2 & Hfn & A1 & A2 & A3 & A4 & A5 & A6 & A7 & A8 & I2 & A9 & A10 & A11 & A12 & (d & D1 & D2 & D3) & t' & T1 & T2 & T3 & T4 & T5).
+  rewrite Cl2 in *. cbn [bd_olist app] in *.
+  set (v := bd_rq_line_value (lrest ++ [LF])) in *.
+  assert (Erc : bd_rq_line_rc v = ST_OK) by (unfold bd_rq_line_rc; apply Z.ltb_lt in Hv; rewrite Hv; reflexivity).
+  assert (Est : bd_rq_line_state v = REQ_BODY_CHUNKED_DATA) by (unfold bd_rq_line_state; apply Z.ltb_lt in Hv; rewrite Hv; reflexivity).
+  rewrite Erc in Hfn. rewrite Est in A2.
+  assert (Inv' : bd_rq_inv i c').
+  { constructor; auto.
+    - exists t'. split; [exact T1|congruence].
+    - rewrite A8. apply (bq_status _ _ I2).
+    - exists d. auto. }
+  destruct (bd_hsc_misc c') as (M1 & M2 & M3).
+  exists (bd_hsc c'), rem2. bd_splits.
+  - constructor.
+    + eapply bd_rq_reach_trans; [exact R2|]. eapply bd_rr_iter; [|apply bd_rr_refl].
+      apply bd_rq_iter_ok; [exact Hfn|apply (bq_status _ _ Inv')|rewrite A2; reflexivity].
+    + eapply bd_eqv_inv; [apply bd_eqv_hsc|exact Inv'].
+    + eapply bd_eqv_clean; [apply bd_eqv_hsc|]. split; assumption.
+    + exact A4.
+    + exists []. rewrite (bd_eqv_events _ _ (bd_eqv_hsc c')), A5. bd_splits; reflexivity.
+    + intros t0 Ht0. rewrite Hl in Ht0. inversion Ht0; subst t0. exists t'. rewrite (bd_eqv_slot _ _ i (bd_eqv_hsc c')).
+      bd_splits; [exact T1|rewrite T3; cbn; lia|rewrite T4, app_length; reflexivity].
+  - rewrite M1. exact A2.
+  - rewrite M3. exact A1.
+  - rewrite (bd_eqv_rest _ _ (bd_eqv_hsc c')). exact A3.
+  - rewrite M2. exact A6.
+Qed.
+
+(* htp_req_handle_state_change after the last-chunk line (new state REQ_HEADERS): only the raw-data receiver is armed *)
+Lemma bd_hsc_headers c i :
+  k_receiver_hook (c_in c) = None -> c_in_tx c = Some i ->
+  exists c'', req_handle_state_change cb c = (ST_OK, c'') /\ c_in_state c'' = c_in_state c /\ c_events c'' = c_events c /\
+    (forall j, tx_slot c'' j = tx_slot c j) /\ bd_rq_rest c'' = bd_rq_rest c /\ c_in_tx c'' = c_in_tx c /\
+    c_in_chunked_length c'' = c_in_chunked_length c.
+Proof.
+  intros Hr Hi. unfold req_handle_state_change.
+  destruct (match c_in_state_previous c with Some s => req_state_eqb s (c_in_state c) | None => false end).
+  { exists c. bd_splits; auto. }
+  destruct (req_state_eqb (c_in_state c) REQ_HEADERS).
+  2:{ eexists. split; [reflexivity|]. bd_splits; try reflexivity; try (intros j; apply bd_slot_ext; reflexivity). }
+  rewrite Hi.
+  assert (Hset : forall h, req_receiver_set cb h c = (ST_OK, rq_set_in (fun k => k <| k_receiver_hook := Some h |> <| k_receiver := k_read k |>) c)).
+  { intros h. unfold req_receiver_set, req_receiver_finalize_clear. rewrite Hr. reflexivity. }
+  destruct (t_request_progress (rq_tx c) =? c_HTP_REQUEST_HEADERS); [|destruct (t_request_progress (rq_tx c) =? c_HTP_REQUEST_TRAILER)];
+    rewrite ?Hset; (eexists; split; [reflexivity|]; bd_splits; try reflexivity; try (intros j; apply bd_slot_ext; reflexivity)).
+Qed.
+
+(* ================= the last-chunk line (value 0) ================= *)
+Lemma bd_rq_last_line i rem c lrest rest t :
+  bd_rq_inv i c -> bd_rq_clean c -> c_in_state c = REQ_BODY_CHUNKED_LENGTH ->
+  bd_rq_rest c ++ concat rem = lrest ++ LF :: rest -> bd_no_lf lrest = true ->
+  (length lrest + 1 <= g_field_limit_hard g)%nat -> Forall (fun d => d <> []) rem ->
+  bd_rq_line_value (lrest ++ [LF]) = 0 -> tx_slot c i = Some t ->
+  exists c' rem' t',
+    bd_rq_reach cb g c rem c' rem' /\ c_in_state c' = REQ_HEADERS /\ c_in_chunked_length c' = 0 /\
+    bd_rq_rest c' ++ concat rem' = rest /\ Forall (fun d => d <> []) rem' /\
+    c_events c' = c_events c /\ c_in_tx c' = Some i /\
+    tx_slot c' i = Some t' /\ t_request_progress t' = c_HTP_REQUEST_TRAILER /\
+    t_request_entity_len t' = t_request_entity_len t /\
+    t_request_message_len t' = t_request_message_len t + Z.of_nat (length lrest + 1).
+Proof.
+  intros Inv (Cl1 & Cl2) Hs Hw Hnl Hhard Hrem Hv Hl.
+  assert (Hhard' : (length (bd_olist (k_buf (c_in c))) + length lrest + 1 <= g_field_limit_hard g)%nat) by (rewrite Cl2; cbn; lia).
+  destruct (bd_rq_line_assembly cb g i rem c lrest rest t Inv Hs Cl1 Hw Hnl Hhard' Hrem Hl)
+    as (c2 & rem2 & c' & R2 & Hfn & A1 & A2 & A3 & A4 & A5 & A6 & A7 & A8 & I2 & A9 & A10 & A11 & A12 & (d & D1 & D2 & D3) & t' & T1 & T2 & T3 & T4 & T5).
+  rewrite Cl2 in *. cbn [bd_olist app] in *. rewrite Hv in *.
+  change (bd_rq_line_rc 0) with ST_OK in Hfn. change (bd_rq_line_state 0) with REQ_HEADERS in A2.
+  destruct (bd_hsc_headers c' i A12 A7) as (c'' & Hh & B1 & B2 & B3 & B4 & B5 & B6).
+  exists c'', rem2, t'. bd_splits; auto.
+  - eapply bd_rq_reach_trans; [exact R2|]. eapply bd_rr_iter; [|apply bd_rr_refl].
+    unfold rq_iter. rewrite Hfn. rewrite A8, (bq_status _ _ I2), Hh. reflexivity.
+  - rewrite B1. exact A2.
+  - rewrite B6. exact A1.
+  - rewrite B4. exact A3.
+  - rewrite B2. exact A5.
+  - rewrite B5. exact A7.
+  - rewrite B3. exact T1.
+  - rewrite T4, app_length. reflexivity.
+Qed.
 End Req.
